@@ -458,3 +458,6 @@ func (p *H2Peer) Response(streamID uint32) H2Response {
 	}
 	return r
 }
+
+// HandshakeVia is Handshake with the TLS client writing through w (a wrapper around raw).
+func HandshakeVia(raw *Conn, w net.Conn, o ClientOpts) (*TLSClient, error) { return handshakeVia(raw, w, o) }
